@@ -6,6 +6,7 @@ import (
 	"net/http"
 	"net/url"
 	"os"
+	"regexp"
 	"sort"
 	"strings"
 	"sync"
@@ -151,6 +152,8 @@ func (c *muxCfg) String() string {
 		c.vname, strings.Join(ts, ","), c.segCount, c.segMin, c.partMin, c.segMaxSize, c.disk)
 }
 
+var prefixRe = regexp.MustCompile(`\b[0-9a-f]{12}_`)
+
 // muxGen holds generator biases set by the profile of the property under check.
 type muxGen struct {
 	variants      []string // subset of mpegts fmp4 ll
@@ -284,7 +287,7 @@ func genScript(r *Run, c *muxCfg, g *muxGen) []*writeCall {
 		}
 	case 3:
 		if g.negativeStart {
-			startSec = -float64(T.Range(9000, 12000)) / 1000.0
+			startSec = -10.0 // the statement's lower bound
 		}
 	}
 	ntpBase := time.Date(2020+T.Intn(10), time.Month(1+T.Intn(12)), 1+T.Intn(28), T.Intn(24), T.Intn(60), T.Intn(60),
@@ -312,6 +315,9 @@ func genScript(r *Run, c *muxCfg, g *muxGen) []*writeCall {
 			off = float64(T.Range(-500, 500)) / 1000.0
 		}
 		t0 := startSec + off
+		if t0 < -10.0 {
+			t0 = -10.0 // negative start timestamps down to -10 s
+		}
 		switch {
 		case ts.video:
 			genVideoCalls(T, g, c, ts, st.calls[:0], n, t0, &st.calls)
@@ -600,6 +606,7 @@ type muxWorld struct {
 
 func newMuxWorld(r *Run, c *muxCfg, script []*writeCall) (*muxWorld, error) {
 	w := &muxWorld{r: r, cfg: c, script: script}
+	r.Scrub = func(s string) string { return prefixRe.ReplaceAllString(s, "PFX_") }
 	if c.disk {
 		d, err := os.MkdirTemp("", "verif-mux-")
 		if err != nil {
